@@ -24,6 +24,15 @@ Module C32m.
 Record snap := mksnap { s_id : N; s_orig : option N; s_key : N; s_tree : N }.
 (* s_key: number standing for the tuple of all fields compared by similarSnapshots except the tree *)
 
+(* The field set behind s_key, pinned.  similarSnapshots is probed field by field by the harness on every
+   run (one struct field of data.Snapshot changed at a time; result in Gen/ParamsC32.similar_mask, bit i =
+   struct field i matters).  The model assumes exactly: Time, Tree, Paths, Hostname, Username, UID, GID,
+   Excludes, Tags matter (bits 0,2,3,4,5,6,7,8,9); Parent, Original, ProgramVersion, Summary and the
+   cached id do not.  Paths and Tags are compared as sets (order-insensitive), Excludes in order — the
+   harness canonicalises s_key accordingly. *)
+Definition expected_similar_mask : Z := 1021.
+Definition expected_field_count : Z := 14.
+
 Definition persistent (s : snap) : N := match s_orig s with Some o => o | None => s_id s end.
 Definition similar (a b : snap) : bool := andb (N.eqb (s_key a) (s_key b)) (N.eqb (s_tree a) (s_tree b)).
 Definition registered_under (d : snap) (k : N) : bool :=
